@@ -269,7 +269,7 @@ theorem trusted_iff {s : St} {d : Key} :
 /-- I2/I3 of the repaired design: a clean edge to a callee whose recorded firewall frontier is
     settled has a current observation, and the callee is `Solid` (hence its value is the
     from-scratch one) -/
-theorem Inv.clean_trusted {p : Program} {s : St} (inv : Inv p s) {x : Key} {n : Node}
+theorem Inv.clean_trusted {p : Program} {s : St} (inv : Inv p s) (sh : Shape p) {x : Key} {n : Node}
     (hx : s.nodes x = some n) {y : Key} {o : Val} (hm : (y, o) ∈ n.deps)
     (hcl : s.dirty x y = false) (ht : trusted s y = true) :
     ∃ ny, s.nodes y = some ny ∧ ny.value = o ∧ (ny.kind ≠ .firewall → ny.tfc = n.seen y) ∧ Solid s y := by
@@ -283,7 +283,7 @@ theorem Inv.clean_trusted {p : Program} {s : St} (inv : Inv p s) {x : Key} {n : 
   | external => exact Solid.leaf hny (hleaf (Or.inr hk)).1 (fun h => by rw [hk] at h; cases h)
   | projection =>
     rw [hk] at hall
-    exact inv.proj_solid hny hk (fun f hf => hall f (by simpa [contrib] using hf))
+    exact inv.proj_solid sh y ny hny hk (fun f hf => hall f (by simpa [contrib] using hf))
   | firewall =>
     rw [hk] at hall
     obtain ⟨nf, hnf, hver, _⟩ := settledFw_iff.1 (hall y (by simp [contrib]))
@@ -291,7 +291,7 @@ theorem Inv.clean_trusted {p : Program} {s : St} (inv : Inv p s) {x : Key} {n : 
     exact inv.solid y ny hny hver
   | normal =>
     rw [hk] at hall
-    exact (hnorm.2 hk).solid_of_settled inv ny hny hk (fun f hf => hall f (by simpa [contrib] using hf))
+    exact (hnorm.2 hk).solid_of_settled inv sh ny hny hk (fun f hf => hall f (by simpa [contrib] using hf))
 
 -- ------------------------------------------------------------------ elementary updates
 
@@ -362,7 +362,9 @@ theorem Inv.setSame {p : Program} {s : St} (inv : Inv p s) {k : Key} {n n' : Nod
         ∃ nd, s.nodes d = some nd ∧ nd.value = o ∧ (nd.kind ≠ .firewall → nd.tfc = n.seen d)) ∧
       (∀ d o, (d, o) ∈ n.deps → Solid s d)))
     (hpb : n'.pendingBP = n.pendingBP ∨ (n'.pendingBP = false ∧
-      ∀ z nz o, s.nodes z = some nz → nz.kind = .projection → (k, o) ∈ nz.deps → n.value = o)) :
+      (∀ z nz o, s.nodes z = some nz → nz.kind = .projection → (k, o) ∈ nz.deps → n.value = o) ∧
+      (StaticProj p → ∀ z nz o, s.nodes z = some nz → nz.kind = .projection → (k, o) ∈ nz.deps →
+        nz.pendingBP = false))) :
     Inv p (setNode s k n') := by
   have hpm : n'.pendingBP = true → n.pendingBP = true := by
     intro h
@@ -392,15 +394,53 @@ theorem Inv.setSame {p : Program} {s : St} (inv : Inv p s) {k : Key} {n n' : Nod
     rcases hst with h' | ⟨h', _⟩
     · rw [h', h]
     · exact h'
+  have frontEq : front (setNode s k n') = front s := by
+    funext x
+    simp only [front, setNode]
+    by_cases e : x = k
+    · subst e; simp only [if_true, hk, hki, ht]
+    · rw [if_neg e]
   constructor
   · intro x nx hx
     obtain ⟨nx0, h0, _, b, c, _, e, _⟩ := nodeAt x nx hx
     rw [e, b, c]; exact inv.kind x nx0 h0
+  · intro pa x nx hx hkx d o nd hm hnd
+    obtain ⟨nx0, h0, _, b, _, _, e, _⟩ := nodeAt x nx hx
+    obtain ⟨nd0, hnd0, _, _, _, _, e', _⟩ := nodeAt d nd hnd
+    rw [b] at hm; rw [e] at hkx; rw [e']
+    exact inv.pjFw pa x nx0 h0 hkx d o nd0 hm hnd0
   · intro x nx hx hkx d o nd hm hnd
     obtain ⟨nx0, h0, _, b, _, _, e, _⟩ := nodeAt x nx hx
     obtain ⟨nd0, hnd0, _, _, _, _, e', _⟩ := nodeAt d nd hnd
     rw [b] at hm; rw [e] at hkx; rw [e']
-    exact inv.pjFw x nx0 h0 hkx d o nd0 hm hnd0
+    exact inv.pjKinds x nx0 h0 hkx d o nd0 hm hnd0
+  · intro sp x nx dx ks hx hpx hkx hst'
+    obtain ⟨nx0, h0, _, b, c, _, e, _⟩ := nodeAt x nx hx
+    rw [b, c, frontEq]; rw [e] at hkx
+    exact inv.pjStat sp x nx0 dx ks h0 hpx hkx hst'
+  · intro sp x nx g o ng hx hm hg hkg
+    obtain ⟨nx0, h0, _, b, _, dd, _⟩ := nodeAt x nx hx
+    obtain ⟨ng0, hg0, _, _, c', _, e', _⟩ := nodeAt g ng hg
+    rw [b] at hm; rw [e'] at hkg
+    rw [dd, c']; exact inv.pjSeen sp x nx0 g o ng0 h0 hm hg0 hkg
+  · intro sp g ng hg hkg hpg
+    obtain ⟨ng0, hg0, _, b, _, _, e, hne, he⟩ := nodeAt g ng hg
+    rw [e] at hkg
+    have hpg0 : ng0.pendingBP = true := by
+      by_cases eg : g = k
+      · obtain ⟨e1, e2⟩ := he eg
+        subst e1; subst e2; exact hpm hpg
+      · rw [hne eg] at hpg; exact hpg
+    obtain ⟨c, o, hm, hpc⟩ := inv.pjCause sp g ng0 hg0 hkg hpg0
+    refine ⟨c, o, by rw [b]; exact hm, ?_⟩
+    by_cases ec : c = k
+    · subst ec
+      rcases hpb with e' | ⟨_, _, hall⟩
+      · simp only [hasPending, setNode, if_true, e']
+        simpa [hasPending, hk] using hpc
+      · have := hall sp g ng0 o hg0 hkg hm
+        rw [hpg0] at this; cases this
+    · simpa [hasPending, setNode, ec] using hpc
   · intro x nx hx hkx d o nd hm hnd hne
     obtain ⟨nx0, h0, _, b, _, _, e, _⟩ := nodeAt x nx hx
     obtain ⟨nd0, hnd0, a', _, _, _, _, hne', he'⟩ := nodeAt d nd hnd
@@ -410,7 +450,7 @@ theorem Inv.setSame {p : Program} {s : St} (inv : Inv p s) {k : Key} {n n' : Nod
     by_cases ed : d = k
     · obtain ⟨e1, e2⟩ := he' ed
       subst e1; subst e2
-      rcases hpb with e | ⟨_, hall⟩
+      rcases hpb with e | ⟨_, hall, _⟩
       · rw [e]; exact hp0
       · exact absurd (hall x nx0 o h0 hkx (ed ▸ hm)) hne
     · rw [hne' ed]; exact hp0
@@ -510,8 +550,9 @@ theorem Inv.setDirty {p : Program} {s : St} (inv : Inv p s) (dirty' : Key → Ke
     hx.transfer (fun y n hy hn => ⟨n, hn, rfl, rfl, rfl, rfl, rfl, id, id⟩)
   have ng : ∀ x, NGood s x → NGood { s with dirty := dirty' } x := fun x hx =>
     hx.transfer (fun y n _ hn => ⟨n, hn, rfl, rfl⟩) (fun y n d o nd _ _ _ hnd => ⟨nd, hnd, rfl, rfl, fun _ => rfl⟩)
-  refine ⟨inv.kind, inv.pjFw, inv.pjBroken, inv.down, inv.tfcDown, inv.nodup, inv.trace, inv.stamp,
-    inv.seenSub, fun k n hn hv => sol k (inv.solid k n hn hv), ?_⟩
+  refine ⟨inv.kind, inv.pjFw, inv.pjKinds, inv.pjStat, inv.pjSeen, inv.pjCause, inv.pjBroken, inv.down,
+    inv.tfcDown, inv.nodup, inv.trace, inv.stamp, inv.seenSub,
+    fun k n hn hv => sol k (inv.solid k n hn hv), ?_⟩
   intro x n hx y o hm hcl
   have hcl : dirty' x y = false := hcl
   have hx : s.nodes x = some n := hx
